@@ -25,16 +25,16 @@ const e19BoundsAssumption = " (assumptions: lengths and loop trip counts < 2^47;
 func init() {
 	Register(&Rule{ID: "R-ERR-5", Props: []string{"C06"}, Floor: 2,
 		Doc: "R-ERR-5 restricted to lib/query.calculateInteger (integer `/` and `%` of the SQL arithmetic): the divisor is excluded from 0 by a dominating test",
-		Run: func(c *Ctx) { ruleErr5(c, e19InFuncs("lib/query.calculateInteger")) }})
+		Run: func(c *Ctx) { ruleErr5(c, e19InFuncsOrHelpers(c, "lib/query.calculateInteger")) }})
 	Register(&Rule{ID: "R-ERR-7", Props: []string{"C17"}, Floor: 1,
 		Doc: "R-ERR-7 restricted to lib/query.windowValues (frame-size guard): the capacity computed from the window frame is non-negative and bounded by the partition",
-		Run: func(c *Ctx) { ruleErr7(c, e19InFuncs("lib/query.windowValues")) }})
+		Run: func(c *Ctx) { ruleErr7(c, e19InFuncsOrHelpers(c, "lib/query.windowValues")) }})
 	Register(&Rule{ID: "R-ERR-9", Props: []string{"C07"}, Floor: 1,
 		Doc: "R-LIM-3a = R-ERR-9 restricted to lib/query.(*View).Limit: the WITH TIES index limit-1 is non-negative (LIMIT 0 WITH TIES)",
-		Run: func(c *Ctx) { ruleErr9(c, e19InFuncs("lib/query.(*View).Limit")) }})
+		Run: func(c *Ctx) { ruleErr9(c, e19InFuncsOrHelpers(c, "lib/query.(*View).Limit")) }})
 	Register(&Rule{ID: "R-ERR-10", Props: []string{"C07"}, Floor: 1,
 		Doc: "R-LIM-3b = R-ERR-10 restricted to lib/query.(*View).Limit: the PERCENT → row-count conversion never sees NaN/±Inf",
-		Run: func(c *Ctx) { ruleErr10(c, e19InFuncs("lib/query.(*View).Limit")) }})
+		Run: func(c *Ctx) { ruleErr10(c, e19InFuncsOrHelpers(c, "lib/query.(*View).Limit")) }})
 	Register(&Rule{ID: "R-ERR-5", Props: []string{"C19"}, Floor: 5,
 		Doc:      "every integer `/` and `%` of hand-written csvq code whose divisor is not a constant has a divisor whose interval excludes 0 at the division (dominating zero test of the divisor itself, or an invariant of the field/parameter it is loaded from)" + e19BoundsAssumption,
 		Controls: []string{"CtlUnguardedDivisor"},
@@ -163,20 +163,28 @@ func e19FmtBound(f float64) string {
 // not rename the construct (known findings and exceptions stay attached).
 // e19OnlyCalledFrom: fn is `name` or an unexported helper whose every call
 // chain (≤ 3 hops, static calls) starts in `name`.
-func e19OnlyCalledFrom(c *Ctx, fn *ssa.Function, name string) bool {
+func e19OnlyCalledFrom(c *Ctx, fn *ssa.Function, names ...string) bool {
 	for fn.Parent() != nil {
 		fn = fn.Parent()
 	}
-	seen := map[*ssa.Function]bool{}
+	memo := map[*ssa.Function]int{} // 1 yes, 2 no / in progress
 	var up func(f *ssa.Function, d int) bool
 	up = func(f *ssa.Function, d int) bool {
-		if c.P.Name(f) == name {
-			return true
+		for _, n := range names {
+			if c.P.Name(f) == n {
+				return true
+			}
 		}
-		if d > 3 || seen[f] || ast.IsExported(f.Name()) {
+		switch memo[f] {
+		case 1:
+			return true
+		case 2:
 			return false
 		}
-		seen[f] = true
+		if d > 3 || ast.IsExported(f.Name()) {
+			return false
+		}
+		memo[f] = 2
 		n := 0
 		for _, ed := range c.P.Callers(f) {
 			cf := ed.Caller.Func
@@ -191,9 +199,22 @@ func e19OnlyCalledFrom(c *Ctx, fn *ssa.Function, name string) bool {
 			}
 			n++
 		}
+		if n > 0 {
+			memo[f] = 1
+		}
 		return n > 0
 	}
 	return up(fn, 0)
+}
+
+// e19InFuncsOrHelpers: scope predicate — the named functions, their closures,
+// and unexported helpers that are called only from them (≤ 3 hops), so that
+// splitting a scoped function into helpers keeps its obligations in scope.
+func e19InFuncsOrHelpers(c *Ctx, names ...string) func(*ssa.Function) bool {
+	for _, n := range names {
+		c.Fn(n) // a vanished anchor is reported, not silently skipped
+	}
+	return func(fn *ssa.Function) bool { return e19OnlyCalledFrom(c, fn, names...) }
 }
 
 func e19KeyFn(c *Ctx, fn *ssa.Function) *ssa.Function {
